@@ -140,8 +140,22 @@ class Program:
             yield "::".join(segs[i:])
 
     # ---- lookup
-    def lookup(self, key):
-        """key: stripped callee path -> Fn or None"""
+    def lookup(self, key, const=False):
+        """key: stripped callee path -> Fn or None (functions preferred unless const=True)"""
+        r = self._lookup(key)
+        return r
+
+    def _pick(self, c, const):
+        for f in c:
+            if f.is_const == const: return f
+        return c[0]
+
+    def lookup_kind(self, key, const):
+        c = self.index.get(key)
+        if c and len(c) > 1: return self._pick(c, const)
+        return self._lookup(key)
+
+    def _lookup(self, key):
         c = self.index.get(key)
         if c: return c[0]
         m = re.match(r"<(.+) as ([^>]+?)>::(.+)$", key)
@@ -149,6 +163,11 @@ class Program:
             k2 = f"<{norm_type(m.group(1))} as {m.group(2).split('::')[-1]}>::{m.group(3)}"
             c = self.index.get(k2)
             if c: return c[0]
+            # items nested in a trait method may be printed by their short path in their own definition
+            rest = m.group(3).split("::")
+            for i in range(1, len(rest)):
+                c = self.index.get("::".join(rest[i:]))
+                if c and len(c) == 1 and len(rest) - i >= 2: return c[0]
             return None
         segs = key.split("::")
         for i in range(1, len(segs) - 0):
@@ -538,7 +557,7 @@ class Interp:
         nm = sc.split("::")[-1]
         if nm in self.P.consts:
             return self.const(self.P.consts[nm])
-        f = self.P.lookup(sc)
+        f = self.P.lookup_kind(sc, True)
         if f is not None and f.is_const:
             return self.run(f, [])
         if f is not None:
@@ -811,7 +830,7 @@ class Interp:
                     if s is not None: return s(self, *args)
                     raise Unsupported(f"callee {key}   [{callee}] (receiver {self.runtime_type(args[0]) if args else None})")
                 return self.run(f, args)
-        f = self.P.lookup(key)
+        f = self.P.lookup_kind(key, False)
         if f is None:
             # summaries keyed by a suffix of the path (e.g. core::str::<impl str>::len)
             segs = key.split("::")
@@ -1037,6 +1056,14 @@ class Interp:
                 if nxt is None:
                     raise Unsupported(f"fell off block bb{bb} in {fn.name}")
                 bb = nxt
+        except (Unsupported, AttributeError, TypeError, IndexError, KeyError) as e:
+            st_ = getattr(e, "mir_stack", None)
+            if st_ is None:
+                st_ = []
+                try: e.mir_stack = st_
+                except Exception: pass
+            if len(st_) < 12: st_.append(f"{fn.name} bb{bb}")
+            raise
         finally:
             self.depth -= 1
 
